@@ -110,8 +110,8 @@ spec fn chunks_ok<F: StreamFilter>(r: Seq<Item>, a: int, b: int, evict: bool, w:
             let m = same_key_prefix(r.skip(a + 1), h.key.user_key.rank(), false, !evict) as int;
             !ferr::<F>(h0)
             && ( (dead(h) && evict) || (h.key.value_type == ValueType::WeakTombstone && m >= 1 && r[a + 1]->Ok_0.key.value_type == ValueType::Value) )
-            // C02 (S): versions beneath a dropped head are dropped only if that head is at or below the GC watermark
-            && (m >= 1 ==> h.key.seqno <= w)
+            // C13 (S'): versions are garbage collected beneath a dropped head only from below the GC watermark
+            && (m >= 1 ==> r[a + 1]->Ok_0.key.seqno < w)
             && a + 1 + m <= b && chunks_ok::<F>(r, a + 1 + m, b, evict, w)
         }
     }
@@ -192,9 +192,8 @@ spec fn step_struct<F: StreamFilter>(r0: Seq<Item>, r1: Seq<Item>, evict: bool, 
                 && (forall|j: int| i < j < n ==> krank(#[trigger] r0[j]) == x.key.user_key.rank())
                 // C13 (N2): versions dropped beneath an emitted live entry never include a weak tombstone unless this is the last level
                 && (!evict && !dead(applied::<F>(r0[i]->Ok_0)) ==> forall|j: int| i < j < n ==> (#[trigger] r0[j])->Ok_0.key.value_type != ValueType::WeakTombstone)
-                // C02 (S): versions beneath the emitted entry are dropped only if it is at or below the GC watermark,
-                // i.e. visible to every snapshot still in use
-                && (n > i + 1 ==> r0[i]->Ok_0.key.seqno <= w)
+                // C13 (S'): versions are garbage collected beneath the emitted entry only from below the GC watermark
+                && (n > i + 1 ==> r0[i + 1]->Ok_0.key.seqno < w)
                 && chunks_ok::<F>(r0, 0, i, evict, w),
     }
 }
@@ -245,13 +244,13 @@ impl<F: StreamFilter> CompactionStream<F> {
             }),
     { unimplemented!() }
 
-//@ FROM src/compaction/stream.rs :: Iterator for CompactionStream :: fn next :: OBL C17.1, C09.1, C02.11
+//@ FROM src/compaction/stream.rs :: Iterator for CompactionStream :: fn next :: OBL C17.1, C09.1
 //@ SUBST `Self :: Item` ==> `Item`
  /*+*/#[verifier::rlimit(1500)]/*-*/ fn next (&mut self) ->  /*+*/(r:/*-*/ Option < Item >  /*+*/)
         requires keys_sorted(old(self).inner.rest()), old(self).has_cb(),
         ensures
             final(self).same_cfg(old(self)),
-            step_struct::<F>(old(self).inner.rest(), final(self).inner.rest(), old(self).evict_tombstones, old(self).zero_seqnos, old(self).gc_seqno_threshold, r),   // @OBL C17.1, C02.11
+            step_struct::<F>(old(self).inner.rest(), final(self).inner.rest(), old(self).evict_tombstones, old(self).zero_seqnos, old(self).gc_seqno_threshold, r),   // @OBL C17.1
             step_log::<F>(old(self).inner.rest(), final(self).inner.rest(), old(self).log(), final(self).log(), old(self).zero_seqnos, r),   // @OBL C09.1
         /*-*/ {
  /*+*/let ghost r0 = self.inner.rest();
@@ -260,7 +259,7 @@ impl<F: StreamFilter> CompactionStream<F> {
         proof { assert(r0.skip(0) =~= r0); assert(vals(r0.take(0)) =~= Seq::<InternalValue>::empty()); assert(live(l0) + live(Seq::<InternalValue>::empty()) =~= live(l0)); }/*-*/ loop  /*+*/invariant
                 self.same_cfg(old(self)),
                 0 <= k <= r0.len(), self.inner.rest() == r0.skip(k), all_ok(r0.take(k)),
-                r0 == old(self).inner.rest(), keys_sorted(r0), chunks_ok::<F>(r0, 0, k, self.evict_tombstones, self.gc_seqno_threshold),   // @OBL C17.1, C02.11
+                r0 == old(self).inner.rest(), keys_sorted(r0), chunks_ok::<F>(r0, 0, k, self.evict_tombstones, self.gc_seqno_threshold),   // @OBL C17.1
                 self.has_cb(), l0 == old(self).log(),
                 live(self.log()) == live(l0) + live(vals(r0.take(k))),   // @OBL C09.1
             decreases self.inner.rest().len()/*-*/ {
@@ -300,9 +299,9 @@ watcher.on_dropped (&head);
 }
  /*+*/proof {
                             assert(fdrop::<F>(r0[h]->Ok_0));
-                            assert(chunks_ok::<F>(r0, h + 1, h + 1, self.evict_tombstones, self.gc_seqno_threshold));   // @OBL C17.1, C02.11
-                            assert(chunks_ok::<F>(r0, h, h + 1, self.evict_tombstones, self.gc_seqno_threshold));   // @OBL C17.1, C02.11
-                            lemma_chunks_append::<F>(r0, 0, h, h + 1, self.evict_tombstones, self.gc_seqno_threshold);   // @OBL C17.1, C02.11
+                            assert(chunks_ok::<F>(r0, h + 1, h + 1, self.evict_tombstones, self.gc_seqno_threshold));   // @OBL C17.1
+                            assert(chunks_ok::<F>(r0, h, h + 1, self.evict_tombstones, self.gc_seqno_threshold));   // @OBL C17.1
+                            lemma_chunks_append::<F>(r0, 0, h, h + 1, self.evict_tombstones, self.gc_seqno_threshold);   // @OBL C17.1
                             assert(self.log() == lg.push(head));   // @OBL C09.1
                             lemma_live_push(lg, head);   // @OBL C09.1
                             assert((live(l0) + live(vals(r0.take(h)))).push(head) =~= live(l0) + live(vals(r0.take(h))).push(head));   // @OBL C09.1
@@ -335,13 +334,13 @@ if head.is_tombstone () &&self.evict_tombstones {
  /*+*/proof {
                             assert(r0.skip(h + 1)[0] == r0[h + 1]);
                             assert(same_key_prefix(r0.skip(h + 1), r0[h]->Ok_0.key.user_key.rank(), false, !self.evict_tombstones) == 0);
-                            assert(chunks_ok::<F>(r0, h + 1, h + 1, self.evict_tombstones, self.gc_seqno_threshold));   // @OBL C17.1, C02.11
-                            assert(chunks_ok::<F>(r0, h, h + 1, self.evict_tombstones, self.gc_seqno_threshold));   // @OBL C17.1, C02.11
-                            lemma_chunks_append::<F>(r0, 0, h, h + 1, self.evict_tombstones, self.gc_seqno_threshold);   // @OBL C17.1, C02.11
+                            assert(chunks_ok::<F>(r0, h + 1, h + 1, self.evict_tombstones, self.gc_seqno_threshold));   // @OBL C17.1
+                            assert(chunks_ok::<F>(r0, h, h + 1, self.evict_tombstones, self.gc_seqno_threshold));   // @OBL C17.1
+                            lemma_chunks_append::<F>(r0, 0, h, h + 1, self.evict_tombstones, self.gc_seqno_threshold);   // @OBL C17.1
                         }/*-*/ continue;
 }
 }
-else if head.key.seqno <= self.gc_seqno_threshold {
+else if peeked.key.seqno < self.gc_seqno_threshold {
 if head.key.value_type == ValueType::Tombstone &&self.evict_tombstones {
  /*+*/let ghost s = self.inner.rest();
                         proof {
@@ -354,9 +353,9 @@ if head.key.value_type == ValueType::Tombstone &&self.evict_tombstones {
                             lemma_prefix(s, head.key.user_key.rank(), false, false);
                             assert(r0.skip(k).skip(m) =~= r0.skip(k + m));
                             lemma_take_ok(r0, k, m, head.key.user_key.rank());
-                            assert(chunks_ok::<F>(r0, h + 1 + m, h + 1 + m, self.evict_tombstones, self.gc_seqno_threshold));   // @OBL C17.1, C02.11
-                            assert(chunks_ok::<F>(r0, h, h + 1 + m, self.evict_tombstones, self.gc_seqno_threshold));   // @OBL C17.1, C02.11
-                            lemma_chunks_append::<F>(r0, 0, h, h + 1 + m, self.evict_tombstones, self.gc_seqno_threshold);   // @OBL C17.1, C02.11
+                            assert(chunks_ok::<F>(r0, h + 1 + m, h + 1 + m, self.evict_tombstones, self.gc_seqno_threshold));   // @OBL C17.1
+                            assert(chunks_ok::<F>(r0, h, h + 1 + m, self.evict_tombstones, self.gc_seqno_threshold));   // @OBL C17.1
+                            lemma_chunks_append::<F>(r0, 0, h, h + 1 + m, self.evict_tombstones, self.gc_seqno_threshold);   // @OBL C17.1
                             lemma_vals_split(r0, h + 1, m);   // @OBL C09.1
                             lemma_live_add(lg2, vals(s.take(m)));   // @OBL C09.1
                             lemma_live_add(vals(r0.take(h + 1)), vals(s.take(m)));   // @OBL C09.1
@@ -385,7 +384,7 @@ let keep_weak_tombstones = !head.is_tombstone () &&!self.evict_tombstones;
                         lemma_live_add(vals(r0.take(h)), vals(s.take(m)));   // @OBL C09.1
                         assert((live(l0) + live(vals(r0.take(h)))) + live(vals(s.take(m))) =~= live(l0) + (live(vals(r0.take(h))) + live(vals(s.take(m)))));   // @OBL C09.1
                         dr = m;
-                        assert forall|j: int| h < j < h + 1 + m implies !kept((#[trigger] r0[j])->Ok_0, keep_weak_tombstones, keep_tombstones) by {   // @OBL C17.1, C02.11
+                        assert forall|j: int| h < j < h + 1 + m implies !kept((#[trigger] r0[j])->Ok_0, keep_weak_tombstones, keep_tombstones) by {   // @OBL C17.1
                             assert(s[j - (h + 1)] == r0[j]);
                         }
                         k = k + m;
@@ -395,9 +394,9 @@ let keep_weak_tombstones = !head.is_tombstone () &&!self.evict_tombstones;
                             assert(s[0] == r0[h + 1]);
                             assert(krank(r0[h]) <= krank(r0[h + 1]));
                             assert(m >= 1);
-                            assert(chunks_ok::<F>(r0, h + 1 + m, h + 1 + m, self.evict_tombstones, self.gc_seqno_threshold));   // @OBL C17.1, C02.11
-                            assert(chunks_ok::<F>(r0, h, h + 1 + m, self.evict_tombstones, self.gc_seqno_threshold));   // @OBL C17.1, C02.11
-                            lemma_chunks_append::<F>(r0, 0, h, h + 1 + m, self.evict_tombstones, self.gc_seqno_threshold);   // @OBL C17.1, C02.11
+                            assert(chunks_ok::<F>(r0, h + 1 + m, h + 1 + m, self.evict_tombstones, self.gc_seqno_threshold));   // @OBL C17.1
+                            assert(chunks_ok::<F>(r0, h, h + 1 + m, self.evict_tombstones, self.gc_seqno_threshold));   // @OBL C17.1
+                            lemma_chunks_append::<F>(r0, 0, h, h + 1 + m, self.evict_tombstones, self.gc_seqno_threshold);   // @OBL C17.1
                         }/*-*/ continue;
 }
 }
@@ -406,9 +405,9 @@ else if head.is_tombstone () &&self.evict_tombstones {
  /*+*/proof {
                     assert(r0.skip(h + 1).len() == 0);
                     assert(same_key_prefix(r0.skip(h + 1), r0[h]->Ok_0.key.user_key.rank(), false, !self.evict_tombstones) == 0);
-                    assert(chunks_ok::<F>(r0, h + 1, h + 1, self.evict_tombstones, self.gc_seqno_threshold));   // @OBL C17.1, C02.11
-                    assert(chunks_ok::<F>(r0, h, h + 1, self.evict_tombstones, self.gc_seqno_threshold));   // @OBL C17.1, C02.11
-                    lemma_chunks_append::<F>(r0, 0, h, h + 1, self.evict_tombstones, self.gc_seqno_threshold);   // @OBL C17.1, C02.11
+                    assert(chunks_ok::<F>(r0, h + 1, h + 1, self.evict_tombstones, self.gc_seqno_threshold));   // @OBL C17.1
+                    assert(chunks_ok::<F>(r0, h, h + 1, self.evict_tombstones, self.gc_seqno_threshold));   // @OBL C17.1
+                    lemma_chunks_append::<F>(r0, 0, h, h + 1, self.evict_tombstones, self.gc_seqno_threshold);   // @OBL C17.1
                 }/*-*/ continue;
 }
 if self.zero_seqnos &&head.key.seqno < self.gc_seqno_threshold {
